@@ -2050,13 +2050,8 @@ fn gen_type(rng: &mut Rng, depth: u32) -> DataType {
 ///  * kf:dict-view-values-write-panic      Dictionary values Utf8View / BinaryView
 ///  * kf:fsb0-write-panic                  FixedSizeBinary(0) anywhere
 ///  * kf:dict-unsupported-values-read-err  Dictionary values Float16 / Interval / Decimal(p > 18)
-///  * kf:dict-bool-read-panic              Dictionary values Boolean
-///  * kf:dict-fsb-plain-page-read-panic    Dictionary values FixedSizeBinary(n) and a page that is
-///                                         not dictionary encoded can occur (dictionary not enabled
-///                                         for every column, small dictionary page limit, or more
-///                                         than one row group)
-///  * kf:cdc-listview-write-panic          CDC on, a ListView column, garbage mode (views out of order)
-///  * kf:cdc-allnull-bool-rle-write-panic  CDC on, a Boolean leaf written with RLE (v2 default or enc=RLE)
+/// Repaired findings keep a `shape:` histogram tag (dict-bool, dict-fsb-plain-page,
+/// cdc-listview-unordered, cdc-bool-rle); it suppresses nothing.
 #[derive(Default)]
 struct Shapes {
     dict_view: bool,
@@ -2133,7 +2128,7 @@ pub fn kf_tags(toks: &[&str]) -> Vec<String> {
         out.push("kf:dict-unsupported-values-read-err".into());
     }
     if sh.dict_bool {
-        out.push("kf:dict-bool-read-panic".into());
+        out.push("shape:dict-bool".into());
     }
     if sh.dict_fsb {
         let dict_on = kv.get("dict").map(|v| *v == "1").unwrap_or(true);
@@ -2153,14 +2148,14 @@ pub fn kf_tags(toks: &[&str]) -> Vec<String> {
             }
         }
         if !(dict_on && num("dps", 1 << 20) >= 1 << 20 && single_rg) || empty_chunk {
-            out.push("kf:dict-fsb-plain-page-read-panic".into());
+            out.push("shape:dict-fsb-plain-page".into());
         }
     }
     if cdc && sh.listview && garbage {
-        out.push("kf:cdc-listview-write-panic".into());
+        out.push("shape:cdc-listview-unordered".into());
     }
     if cdc && sh.boolean && (v2 || enc.contains("RLE")) {
-        out.push("kf:cdc-allnull-bool-rle-write-panic".into());
+        out.push("shape:cdc-bool-rle".into());
     }
     out
 }
